@@ -211,16 +211,24 @@ def live_before(stmts, live):
     return live
 
 
+_READS = {}
+
+
 def reads(stmts):
+    """names read (over-approximated) by the statements; a.f counts for the field variable a.f"""
     out = set()
     for s in stmts:
-        for n in ast.walk(s):
-            if isinstance(n, ast.Name) and isinstance(n.ctx, ast.Load):
-                out.add(n.id)
-            elif isinstance(n, ast.Attribute) and isinstance(n.value, ast.Name):
-                out.add(n.value.id + '.' + n.attr)
-            elif isinstance(n, ast.AugAssign) and isinstance(n.target, ast.Name):
-                out.add(n.target.id)
+        if id(s) not in _READS:
+            r = set()
+            for n in ast.walk(s):
+                if isinstance(n, ast.Name) and isinstance(n.ctx, ast.Load):
+                    r.add(n.id)
+                elif isinstance(n, ast.Attribute) and isinstance(n.value, ast.Name):
+                    r.add(n.value.id + '.' + n.attr)
+                elif isinstance(n, ast.AugAssign) and isinstance(n.target, ast.Name):
+                    r.add(n.target.id)
+            _READS[id(s)] = (s, r)
+        out |= _READS[id(s)][1]
     return out
 
 
@@ -294,7 +302,7 @@ class Tail:
 
 class Tr:
     def __init__(self, fname, checkers):
-        self.fname, self.checkers, self.n, self.mon, self.shared = fname, checkers, 0, [], set()
+        self.fname, self.checkers, self.n, self.mon, self.shared, self.impure = fname, checkers, 0, [], set(), set()
 
     def fresh(self):
         self.n += 1
@@ -304,13 +312,15 @@ class Tr:
         if not self.mon[-1]:
             raise NeedMonad()
 
-    def region(self, gen):
-        """gen(mon) -> result; first as a pure expression, again in the monad when an operation that can raise turns up"""
-        for mon in (False, True):
+    def region(self, gen, key):
+        """gen(mon) -> result; first as a pure expression, again in the monad when an operation that can raise turns up
+        (remembered per statement `key`, so that later passes over the same statement start in the right mode)"""
+        for mon in ((True,) if key in self.impure else (False, True)):
             self.mon.append(mon)
             try:
                 return gen(mon), mon
             except NeedMonad:
+                self.impure.add(key)
                 if mon:
                     raise
             finally:
@@ -778,7 +788,7 @@ class Tr:
             render, ea, eb, only = self.test(s.test, env, pre)
             if only is not None:                   # `x is None` on a value that is statically None
                 return self.binds(pre) + self.block((s.body if only else s.orelse) + rest, env, tail)
-            return self.binds(pre) + self.branch(render, s.body, ea, s.orelse, eb, env, rest, tail, live)
+            return self.binds(pre) + self.branch(id(s), render, s.body, ea, s.orelse, eb, env, rest, tail, live)
         if isinstance(s, ast.Try) and len(s.handlers) == 1 and not s.orelse and not s.finalbody and len(s.body) == 1:
             h, b = s.handlers[0], s.body[0]
             if ast.unparse(h.type) == 'KeyError' and h.name is None and isinstance(b, ast.Assign) and len(b.targets) == 1 \
@@ -788,14 +798,14 @@ class Tr:
                     g = gname(b.targets[0].id)
                     ea = dict(env, **{b.targets[0].id: V(g, 'Checker')})        # the checker is represented by the key it is registered under
                     render = lambda x, y: 'if ps_mem str_eqb %s %s then\nlet %s := %s in\n%s\nelse\n%s' % (key.text, reg.text, g, key.text, x, y)
-                    return self.binds(pre) + self.branch(render, [], ea, h.body, dict(env), env, rest, tail, live)
+                    return self.binds(pre) + self.branch(id(s), render, [], ea, h.body, dict(env), env, rest, tail, live)
             if ast.unparse(h.type) == 'xml.SyntaxError' and h.name and isinstance(b, ast.Expr) and isinstance(b.value, ast.Call) \
                     and ast.unparse(b.value.func) == 'xml.check_fragment' and len(b.value.args) == 1 and not b.value.keywords:
                 x = self.ev(b.value.args[0], env, pre)
                 if x.ty == 'Str':
                     ea = dict(env, **{h.name: V(gname(h.name), 'Str')})
                     render = lambda a, b_: 'match c_xml cfg %s with\n| Some %s =>\n%s\n| None =>\n%s\nend' % (x.text, gname(h.name), a, b_)
-                    return self.binds(pre) + self.branch(render, h.body, ea, [], dict(env), env, rest, tail, live)
+                    return self.binds(pre) + self.branch(id(s), render, h.body, ea, [], dict(env), env, rest, tail, live)
         if isinstance(s, ast.For) and not s.orelse:
             return self.loop(s, env, rest, tail, live)
         bad(s, 'statement')
@@ -859,7 +869,7 @@ class Tr:
         return (lambda a, b: 'if %s then\n%s\nelse\n%s' % (c, a, b)), dict(env), dict(env), None
 
 
-    def branch(self, render, body_a, env_a, body_b, env_b, env0, rest, tail, live):
+    def branch(self, key, render, body_a, env_a, body_b, env_b, env0, rest, tail, live):
         ja, jb = jumps(body_a), jumps(body_b)
         if ja or jb:        # the statements after the `if` are reached from the branch that does not jump only
             if ja and jb and rest:
@@ -894,7 +904,7 @@ class Tr:
                 return 'Ok %s' % (t if t.startswith('(') or ' ' not in t else '(%s)' % t) if mon else t
             out = Tail(end, set(names), {})
             return render(self.block(body_a, dict(env_a), out), self.block(body_b, dict(env_b), out))
-        text, mon = self.region(gen)
+        text, mon = self.region(gen, key)
         for x, ty in zip(names, tys):
             env[x] = V(gname(x), ty, (env0.get(x) or V(None, None)).aux)
         env['$taint'] = (ends[0]['$taint'] | ends[1]['$taint']) - {x for x in assigned(body_a) + assigned(body_b) if x not in names}
@@ -953,7 +963,7 @@ class Tr:
                     return 'Ok (%s, %s)' % (flag, t) if mon else '(%s, %s)' % (flag, t) if brk else t
                 return f
             return self.block(s.body, benv(), Tail(fin('false'), set(state), {'continue': fin('false'), 'break': fin('true')}))
-        body, mon = self.region(gen)
+        body, mon = self.region(gen, id(s))
         text = '%s %s %s (fun st x =>\nlet %s := st in\n%s%s)' % ('py_for' if mon else 'py_forb' if brk else 'py_fold', seq,
                                                                  tup([coerce(env[v], ty) for v, ty in zip(state, tys)]),
                                                                  pat([gname(v) for v in state]), lets, body)
